@@ -7,6 +7,9 @@ hook_commits = ["f1ad3b2"]
 RIG_NOTE = "Trusts the rig (pty, gate on core.Stdin through the verif hook, lock-step driver, VT100 emulator where used) and the kernel tty layer."
 
 claimed = {
+ "C01": dict(level="exploration", technique="property-based testing (rapid): generated configurations x key scripts over the full key alphabet (every registered command by name) x chunkings x injected EOF/EIO faults, run through real Readline calls on a pty; crash / watchdog / count-based spin oracle",
+   text="Generated-input search for panics, fatal errors, deadlocks and busy loops: each case is a full session (configuration, history, completer, terminal size, 1-3 Readline calls) driven in lock-step through a gate on the library's terminal reader, so 'returned or blocked waiting for input' is an observed fact at every step; faults are injected at main-loop and mid-command reads. Exploration: unbounded input space, validity-predicate oracle.",
+   note=RIG_NOTE + " Liveness is decided by a count (reads after a persistent fault) and otherwise by a 10 s watchdog with bounded generated work and confirmation in a fresh child.", ref="DESIGN.md §3 C01"),
  "C02": dict(level="exploration", technique="property-based testing (rapid): generated Unicode strings x chunkings x meta settings through a real pty session; identity oracle",
    text="Generated-input search: thousands of generated printable Unicode strings are typed byte-for-byte into a real Readline call on a pseudo-terminal under generated read chunkings and meta settings; the returned line must equal the typed text. Exploration is the right level: the domain (all strings x chunkings x settings) is unbounded and the oracle is exact (identity).",
    note=RIG_NOTE + " Preconditions from the documentation (autopairs/autocomplete/autosuggest off, no user binds).", ref="DESIGN.md §3 C02"),
